@@ -278,6 +278,7 @@ func runC17(c *Ctx) {
 		containsCase(c, shortReadFs{fs, kmax}, fmt.Sprintf("k%d", i), content, [][]byte{needle})
 	}
 	genC17Chunked(c, fs) // (5) arbitrary io.Reader behaviour (c17c.go)
+	runC17Huge(c)
 	genC17b(c)
 	runC17OS(c) // WriteFile / WriteReader / SafeWriteReader + ReadFile (c17b.go)
 }
@@ -321,4 +322,40 @@ func (f shortReadFile) Read(p []byte) (int, error) {
 		p = p[:f.k]
 	}
 	return f.File.Read(p)
+}
+
+// needles of half a megabyte and more (oracle only: the extracted model's byte lists are not made
+// for megabytes): bytes.Contains is the reference
+func runC17Huge(c *Ctx) {
+	fs := afero.NewMemMapFs()
+	n := 0
+	content := make([]byte, 2<<20)
+	for i := range content {
+		content[i] = byte('a' + i%5)
+	}
+	for _, L := range []int{600000, 1<<20 + 7} {
+		needle := make([]byte, L)
+		for i := range needle {
+			needle[i] = byte('p' + (i*3)%7)
+		}
+		for _, pos := range []int{-1, 0, 500000, len(content) - L} {
+			n++
+			data := append([]byte{}, content...)
+			if pos >= 0 {
+				copy(data[pos:], needle)
+			}
+			afero.WriteFile(fs, "/huge.bin", data, 0o644)
+			got, err := afero.FileContainsBytes(fs, "/huge.bin", needle)
+			want := bytes.Contains(data, needle)
+			c.Count("huge-needle")
+			if err != nil || got != want {
+				sig := "false-negative"
+				if got {
+					sig = "false-positive"
+				}
+				c.Oracle("FAIL huge%d contains:%s:huge-needle a %d-byte needle at offset %d of a %d-byte file: FileContainsBytes = %v, %v; bytes.Contains = %v", n, sig, L, pos, len(data), got, err, want)
+			}
+		}
+	}
+	c.Extra["huge_needles"] = fmt.Sprintf("%d searches for needles of 600000 and 1048583 bytes in a 2 MiB file (oracle only)", n)
 }
